@@ -172,7 +172,7 @@ macro_rules! partial1 {
 /// two channels with CONCRETE different partial lengths (and a masked empty channel): the padding
 /// must be per channel
 macro_rules! partial2_concrete {
-    ($nd:ident, $a:ident, $b:ident, $T:ty, $MI:expr, $MO:expr, $l0:expr, $l1:expr, $m1:expr) => {{
+    ($nd:ident, $a:ident, $b:ident, $T:ty, $MI:expr, $MO:expr, $l0:expr, $l1:expr, $m0:expr, $m1:expr) => {{
         let n = $b.input_frames_next();
         $crate::fit!($nd, n <= $MI && n > $l0 && n > $l1, "C16.demand_fits_scenario_bound[base]");
         let mut x0 = [0.0 as $T; $MI];
@@ -182,7 +182,7 @@ macro_rules! partial2_concrete {
         let mut p0 = [0.0 as $T; $MI];
         let mut p1 = [0.0 as $T; $MI];
         unroll32!(i, $MI, { if i < $l0 { p0[i] = x0[i]; } if i < $l1 { p1[i] = x1[i]; } });
-        let mb = [true, $m1];
+        let mb = [$m0, $m1];
         let sent = SENT as $T;
         let mut oa0 = [sent; $MO];
         let mut oa1 = [sent; $MO];
@@ -233,6 +233,36 @@ harnesses! {
         forget(a); forget(b);
     }
 
+    // process() sizes its vectors from output_frames_next(): with a ramped change pending the
+    // wrapper must still succeed and return exactly what the core call writes
+    #[kani::unwind(26)]
+    fn c16_process_ffi_ramp_pending(nd) {
+        let mut a = FastFixedIn::<f64>::new(1.0, 2.0, PolynomialDegree::Nearest, 3, 1).unwrap();
+        let mut b = FastFixedIn::<f64>::new(1.0, 2.0, PolynomialDegree::Nearest, 3, 1).unwrap();
+        let down = nd.bool();
+        let r = if down { 0.5 } else { 2.0 };
+        check!(a.set_resample_ratio(r, true).is_ok() && b.set_resample_ratio(r, true).is_ok(), "C03.ok[base]");
+        let mut x = [0.0f64; 3];
+        fill_line(&mut x[..], 0);
+        let no = b.output_frames_next();
+        crate::fit!(nd, no <= 16, "C16.demand_fits_scenario_bound[base]");
+        let mut ob = [SENT; 16];
+        let ra = a.process(&[&x[..]], None);
+        let rb = b.process_into_buffer(&[&x[..]], &mut [&mut ob[..no]], None);
+        match (&ra, &rb) {
+            (Ok(v), Ok((_, cnt))) => {
+                check!(v.len() == 1 && v[0].len() == *cnt, "C16.process_lengths[base]");
+                let mut same = true;
+                unroll32!(i, 16, { if v.len() == 1 && i < *cnt && i < v[0].len() && v[0][i].to_bits() != ob[i].to_bits() { same = false; } });
+                check!(same, "C16.process_values[base]");
+                cover!(*cnt > 0, "frames compared");
+            }
+            _ => { check!(false, "C16.process_result[base]"); }
+        }
+        forget(ra);
+        forget(a); forget(b);
+    }
+
     // ---------------------------------------------------------------- partial == zero padding
     #[kani::unwind(10)]
     fn c16_partial_ffo_2ch_sym(nd) {
@@ -263,25 +293,34 @@ harnesses! {
     // ---------------------------------------------------------------- quick: light partial harnesses
     #[kani::unwind(10)]
     fn c16_partial_ffo(nd) {
-        let mut a = FastFixedOut::<f64>::new(1.0, 2.0, PolynomialDegree::Nearest, 2, 1).unwrap();
-        let mut b = FastFixedOut::<f64>::new(1.0, 2.0, PolynomialDegree::Nearest, 2, 1).unwrap();
-        partial1!(nd, a, b, f64, 6, 2);
+        // chunk 6: the last three frames of the first call read the current input
+        let mut a = FastFixedOut::<f64>::new(1.0, 2.0, PolynomialDegree::Nearest, 6, 1).unwrap();
+        let mut b = FastFixedOut::<f64>::new(1.0, 2.0, PolynomialDegree::Nearest, 6, 1).unwrap();
+        partial1!(nd, a, b, f64, 10, 6);
         forget(a); forget(b);
     }
     #[kani::unwind(10)]
     fn c16_partial_ffo_2ch(nd) {
         // different concrete lengths per channel
-        let mut a = FastFixedOut::<f64>::new(1.0, 2.0, PolynomialDegree::Nearest, 2, 2).unwrap();
-        let mut b = FastFixedOut::<f64>::new(1.0, 2.0, PolynomialDegree::Nearest, 2, 2).unwrap();
-        partial2_concrete!(nd, a, b, f64, 6, 2, 5, 2, true);
+        let mut a = FastFixedOut::<f64>::new(1.0, 2.0, PolynomialDegree::Nearest, 6, 2).unwrap();
+        let mut b = FastFixedOut::<f64>::new(1.0, 2.0, PolynomialDegree::Nearest, 6, 2).unwrap();
+        partial2_concrete!(nd, a, b, f64, 10, 6, 5, 2, true, true);
         forget(a); forget(b);
     }
     #[kani::unwind(10)]
     fn c16_partial_ffo_2ch_masked_empty(nd) {
         // the masked channel is passed empty: the active channel must still be padded from ITS length
-        let mut a = FastFixedOut::<f64>::new(1.0, 2.0, PolynomialDegree::Nearest, 2, 2).unwrap();
-        let mut b = FastFixedOut::<f64>::new(1.0, 2.0, PolynomialDegree::Nearest, 2, 2).unwrap();
-        partial2_concrete!(nd, a, b, f64, 6, 2, 5, 0, false);
+        let mut a = FastFixedOut::<f64>::new(1.0, 2.0, PolynomialDegree::Nearest, 6, 2).unwrap();
+        let mut b = FastFixedOut::<f64>::new(1.0, 2.0, PolynomialDegree::Nearest, 6, 2).unwrap();
+        partial2_concrete!(nd, a, b, f64, 10, 6, 5, 0, true, false);
+        forget(a); forget(b);
+    }
+    #[kani::unwind(10)]
+    fn c16_partial_ffo_2ch_masked_first(nd) {
+        // the FIRST channel is masked and passed empty: the partial length must not be taken from it
+        let mut a = FastFixedOut::<f64>::new(1.0, 2.0, PolynomialDegree::Nearest, 6, 2).unwrap();
+        let mut b = FastFixedOut::<f64>::new(1.0, 2.0, PolynomialDegree::Nearest, 6, 2).unwrap();
+        partial2_concrete!(nd, a, b, f64, 10, 6, 0, 5, false, true);
         forget(a); forget(b);
     }
     #[kani::unwind(14)]
@@ -326,13 +365,14 @@ harnesses! {
     // ---------------------------------------------------------------- process_partial == process_partial_into_buffer
     #[kani::unwind(10)]
     fn c16_partial_alloc_ffo(nd) {
-        let mut a = FastFixedOut::<f64>::new(1.0, 2.0, PolynomialDegree::Linear, 2, 1).unwrap();
-        let mut b = FastFixedOut::<f64>::new(1.0, 2.0, PolynomialDegree::Linear, 2, 1).unwrap();
-        let mut x = [0.0f64; 6];
+        // chunk 6: the last frames of the first call read the current input
+        let mut a = FastFixedOut::<f64>::new(1.0, 2.0, PolynomialDegree::Linear, 6, 1).unwrap();
+        let mut b = FastFixedOut::<f64>::new(1.0, 2.0, PolynomialDegree::Linear, 6, 1).unwrap();
+        let mut x = [0.0f64; 10];
         fill_line(&mut x[..], 0);
-        let l = nd.usize_in(1, 5);
+        let l = nd.usize_in(1, 9);
         let some = nd.bool();
-        let mut ob = [SENT; 2];
+        let mut ob = [SENT; 6];
         let (ra, rb) = if some {
             (a.process_partial(Some(&[&x[..l]]), None), b.process_partial_into_buffer(Some(&[&x[..l]]), &mut [&mut ob[..]], None))
         } else {
@@ -342,8 +382,11 @@ harnesses! {
         match (&ra, &rb) {
             (Ok(v), Ok((_, cnt))) => {
                 check!(v.len() == 1 && v[0].len() == *cnt, "C16.process_partial_lengths[base]");
-                if v.len() == 1 && v[0].len() == 2 {
-                    check!(v[0][0].to_bits() == ob[0].to_bits() && v[0][1].to_bits() == ob[1].to_bits(), "C16.process_partial_values[base]");
+                if v.len() == 1 && v[0].len() == 6 {
+                    let mut same = true;
+                    unroll32!(i, 6, { if v[0][i].to_bits() != ob[i].to_bits() { same = false; } });
+                    check!(same, "C16.process_partial_values[base]");
+                    cover!(some && ob[5] != 0.0, "compared output depends on the current input");
                 }
             }
             _ => { check!(false, "C16.process_partial_result[base]"); }
